@@ -10,7 +10,7 @@ W2 == <<5, 5, 6, 7>>
 MC_PSeq == <<P1, P2, P3, P4>>
 MC_WSeq == <<W1, W2>>
 MC_CSeq == << <<0, 0>>, <<1, 1>>, <<7, 7>> >>
-MC_RSeq == <<0, 1, 3, 9, 33, Inf>>
+MC_RSeq == <<0, 1, 3, 9, 33, Inf, 2000000000>>   \* last: finite, beyond every distance of the instance
 S(kind_, i_, a_, b_, st_, arr_) == [kind |-> kind_, i |-> i_, a |-> a_, b |-> b_, st |-> st_, arr |-> arr_]
 MC_SSeq == << S("int", 0, 0, 0, 1, <<>>), S("int", -1, 0, 0, 1, <<>>), S("npint", 2, 0, 0, 1, <<>>),
               S("slice", 0, 1, 3, NoneV, <<>>), S("slice", 0, NoneV, NoneV, 2, <<>>),
